@@ -53,6 +53,23 @@ def build_sets(ctx):
             txt = f"PROGRAM N7006\nVAR\n  N7007 : STRING;\nEND_VAR\nN7007 := {'x' * sh}'a' '{ch * 400}';\nEND_PROGRAM\n"
             sets.append({'kind': 'syntax', 'files': [{'name': 'bad_syntax.st', 'kind': 'syntax', 'data': txt.encode()},
                                                      {'name': 'u0.st', 'kind': 'unit', 'decls': [('R', 7201, 1, 2)], 'data': units.print_file([('R', 7201, 1, 2)], None).encode()}]})
+    # a set in which one file holds a very long expression (the parser recurses once per term: the command runs it on a
+    # thread with a large stack), accompanied by valid files and by a file with a fault
+    deep_decls = [('P', 7300, [units.var(7301, 'v', 'i')], [('a', 7301, [7301] * 1500)])]
+    deep = {'name': 'deep.st', 'kind': 'unit', 'decls': deep_decls, 'data': units.print_file(deep_decls, None).encode()}
+    for k in range(2 if ctx.quick() else 12):
+        base, ns = units.gen_valid(rng, size=1)
+        for kind in ('valid', 'semantic'):
+            decls = base
+            if kind == 'semantic':
+                ss = [x for x in units.plant_all(base, ns, rng) if x[0] not in ('unknown-type',)]
+                if not ss: continue
+                decls = rng.choice(ss)[2]
+            files = [{'name': f'u{i}.st', 'kind': 'unit', 'decls': f, 'data': units.print_file(f, rng).encode()}
+                     for i, f in enumerate(units.split_files(rng, decls, rng.choice([1, 2])))]
+            files.insert(rng.randrange(len(files) + 1), deep)
+            sets.append({'kind': kind, 'files': files})
+    sets.append({'kind': 'valid', 'files': [deep]})
     sets.append({'kind': 'empty', 'files': []})
     return sets
 
